@@ -192,6 +192,8 @@ def plan(tier, seed):
     nr = 16 if tier == "quick" else 48
     for i in range(nr):
         specs.append({"kind": "random", "part": i, "parts": nr, "seed": seed, "tier": tier, "idx": idx}); idx += 1
+    for i in range(1 if tier == "quick" else 6):
+        specs.append({"kind": "valgrind", "part": i, "seed": seed, "tier": tier, "idx": idx}); idx += 1
     return specs
 
 
@@ -222,6 +224,28 @@ def run_shard(spec) -> Result:
                         placed = {p: evs[c] for p, c in zip(pl, combo)}
                         jobs.append((scen, build_script(6 + window + 8, placed)))
         res.count("enumerated_runs", len(jobs))
+    elif spec["kind"] == "valgrind":
+        # the raw-pointer bus of CoreRuntime::step and the raw TimerContext pointer of the IMR/ISR hook under memcheck
+        vj = []
+        for _ in range(12 if tier == "quick" else 80):
+            scen = scenario(r.choice(list(MAINS)), r.choice(list(BODIES)), r.choice(IMR_VALUES + [0x87, 0x8F]),
+                            {"enabled": True, "mti": r.choice((1, 2, 3, 5)), "sti": r.choice((0, 2, 3))}, kb_irq=r.random() < 0.85)
+            nsteps = r.randrange(30, 90)
+            vj.append((scen, build_script(nsteps, {r.randrange(6, nsteps): r.choice(EVENTS) for _e in range(r.randrange(0, 6))})))
+        kc = key_codes()
+        outs, rep = machine.run_rust(vj, kc, valgrind=True)
+        if not rep.get("available"):
+            res.count("valgrind_not_available")
+        else:
+            res.evaluations += 1
+            res.monitor("valgrind_memcheck", len(vj))
+            if rep["errors"] or rep.get("rc") != 0 or outs is None:
+                res.violation({"clause": "memcheck_error_in_step_or_irq_hook"}, {"jobs": len(vj)}, rep["log"][-800:])
+            else:
+                plain = machine.run_rust(vj, kc)
+                if [o[0] for o in outs] != [o[0] for o in plain]:
+                    res.violation({"clause": "result_differs_under_memcheck"}, {"jobs": len(vj)}, "")
+        return res
     else:
         n = (1600 if tier == "quick" else 24000) // spec["parts"]
         for _ in range(n):
